@@ -409,3 +409,12 @@ func Build(key *rsa.PrivateKey, cert *x509.Certificate, o BuildOpts) ([]byte, er
 
 // Digest is SHA-256.
 func Digest(b []byte) []byte { d := sha256.Sum256(b); return d[:] }
+
+// SignAttrs signs the signer's attributes (as they are now) with key:
+// PKCS#1 v1.5 RSA-SHA256 over the DER SET OF encoding.
+func SignAttrs(key *rsa.PrivateKey, s *Signer) ([]byte, error) {
+	v := s.Attrs.Value()
+	tbs := append(append([]byte{0x31}, der.EncodeLen(len(v))...), v...)
+	h := sha256.Sum256(tbs)
+	return rsa.SignPKCS1v15(nil, key, crypto.SHA256, h[:])
+}
